@@ -477,6 +477,7 @@ func scenarioC12(r *Run) {
 						var b4, aft runtime.MemStats
 						synctest.Wait()
 						runtime.ReadMemStats(&b4)
+						g0 := runtime.NumGoroutine()
 						for k := 0; k < 1320; k++ {
 							q.Id = uint16(k + 1)
 							data, err := q.Pack()
@@ -507,6 +508,30 @@ func scenarioC12(r *Run) {
 						r.Logf("1320 version requests from as many addresses (session table full)")
 						if delta := aft.TotalAlloc - b4.TotalAlloc; delta > 512<<20 {
 							r.FailSig("unbounded-allocation", "kind=user-table-filled", "1320 version requests made the server allocate %d bytes", delta)
+						}
+						// every one of them was answered or ignored - none may still be occupying a handler. 1296 get
+						// a session, the others a refusal; then 60 more, all refused: the number of goroutines must
+						// not follow the number of requests.
+						g1 := runtime.NumGoroutine()
+						for k := 0; k < 60; k++ {
+							q.Id = uint16(2000 + k)
+							data, err := q.Pack()
+							if err != nil {
+								break
+							}
+							from := &net.UDPAddr{IP: net.IPv4(10, 7, 9, byte(1+k)), Port: 6000 + k}
+							r.Net.Inject("udp", from, &net.UDPAddr{IP: net.ParseIP(ServerIP), Port: 5353}, data)
+						}
+						synctest.Wait()
+						for _, fd := range r.Net.Flight() {
+							if strings.HasPrefix(fd.To, "10.7.") {
+								r.Net.TakeDgram(fd.Seq)
+							}
+						}
+						g2 := runtime.NumGoroutine()
+						r.Info["goroutines(before fill/after fill/after 60 more)"] = fmt.Sprintf("%d/%d/%d", g0, g1, g2)
+						if g2-g1 > 30 || g1-g0 > 30 {
+							r.FailSig("unbounded-goroutines", "kind=user-table-filled", "version requests against a full session table leave goroutines behind: %d before the fill, %d after 1320 requests, %d after 60 more (stacks: %s)", g0, g1, g2, truncate(strings.Join(GoroutineStacks([]string{"newUser", "onMessage", "ServeDNS"}), " | "), 1500))
 						}
 						return
 					}
